@@ -226,6 +226,10 @@ def gen_biclique(rng, malformed):
 def gen_recurrent(rng, malformed, refrac0=False):
     B, dt = rng.choice([1, 1, 2, 3]), rng.choice([1.0, 0.5])
     ish, fsh, bsh = rng.choice(SHAPES), rng.choice(SHAPES), rng.choice(SHAPES)
+    if rng.random() < 0.85:
+        # feed-forward and feedback groups of DIFFERENT sizes (so that mixing them up cannot go unnoticed)
+        while nel(bsh) == nel(fsh):
+            bsh = rng.choice(SHAPES)
     bad = rng.choice(["dupc", "dupn", "fbmismatch", "insize"]) if malformed else None
     cn = rng.sample(range(1, 9), 3)
     nn = rng.sample(range(1, 9), 2)
@@ -252,6 +256,12 @@ def gen_recurrent(rng, malformed, refrac0=False):
     def clear():
         return ["clear", rng.random() < 0.8, rng.random() < 0.85, rng.choice([None, None, True, False])]
     case["ops"] = common_ops(rng, case, None, None, fwd, clear, rng.randint(3, 12))
+    if not any(o[0] == "fwd" for o in case["ops"][:2]):
+        case["ops"].insert(0, fwd())                       # the first step of a new layer (no feedback spikes yet)
+    if rng.random() < 0.7:
+        # the first step after clear(): feedback buffer None again
+        j = rng.randint(1, len(case["ops"]))
+        case["ops"][j:j] = [["clear", True, rng.random() < 0.8, None], fwd(), fwd()]
     if bad == "insize":
         case["ops"].insert(rng.randint(0, len(case["ops"])),
                            ["fwd", [gen_tensor(rng, [B, nel(ish) + 1])], [], [], None, None, False])
@@ -325,8 +335,8 @@ def exhaustive_cases(depth=4):
                      [["fwd", [[1, [hot]], [2, [hot]]], [], False], ["fwd", [[2, [cold]]], [], True],
                       ["clear", True, None], ["clear", False, None]]),
         "recurrent": ({"kind": "recurrent", "B": B, "dt": dt, "trainable": False, "tr": [None, None, None],
-                       "itr": [None, None], "conns": [conn(1, 2, 2, 0.9), conn(2, 2, 2, 0.8), conn(3, 2, 2, 0.7)],
-                       "neurs": [neur(1, 2), neur(2, 2)]},
+                       "itr": [None, None], "conns": [conn(1, 2, 2, 0.9), conn(2, 2, 3, 0.8), conn(3, 3, 2, 0.7)],
+                       "neurs": [neur(1, 2), neur(2, 3)]},
                       [["fwd", [hot], [], [], None, None, True], ["fwd", [cold], [], [], None, None, False],
                        ["clear", True, True, None], ["clear", False, True, None], ["clear", True, False, None]]),
     }
@@ -639,7 +649,8 @@ def run(ctx):
                 "DeltaCurrent (bias, integer-step delays) and LIF/ALIF components, batch 1-3, 3-14 operations "
                 "(forward with kwargs/capture, clear with every flag combination, parameter assignment, train/eval, "
                 "adaptation assignment); every 6th case from a malformed stream (wrong sizes, unknown / repeated names, empty "
-                "inputs); every 10th a replay case (S; ...; clear; S); non-trivial = >=2 forwards and no construction error; "
+                "inputs); recurrent layers mostly with feed-forward and feedback groups of different sizes and with forwards right "
+                "after construction and after clear(); every 10th a replay case (S; ...; clear; S); non-trivial = >=2 forwards and no construction error; "
                 "distinct by full case text"
                 + ("; plus, for one fixed small layer of each kind, every operation sequence of depth <= 4 over an alphabet of "
                    "2 forwards and 2-3 clears" if exhaustive else ""),
